@@ -144,22 +144,25 @@ def shape_of(text):
     return "class"
 
 
-def allof_mismatch(sut, element, depth=0):
-    """F23 trigger: an AllOf (anywhere below) whose first branch's annotation differs from its own."""
-    if depth > 12:
+def _f23_shape(sut, element):
+    """F23 as observed on the pinned tree: the documented rule SKIPS a first branch annotated Any or
+    Union[...] and takes the annotation of a later branch, while the value is built by the first."""
+    if not (isinstance(element, sut.AllOf) and element.elements):
         return False
-    if isinstance(element, sut.AllOf):
-        try:
-            if element.elements and element.elements[0].annotation != element.annotation:
-                return True
-        except Exception:  # pylint: disable=broad-except
-            return True
+    first = _safe_ann(element.elements[0])
+    return (first == "Any" or first.startswith("Union")) and first != _safe_ann(element)
+
+
+def allof_mismatch(sut, element, depth=0):
+    """F23 trigger: an AllOf (here or anywhere below) of that shape."""
+    if _f23_shape(sut, element):
+        return True
     try:
         children = list(sut.get_children(element))
     except Exception:  # pylint: disable=broad-except
         return False
-    return any(isinstance(child, sut.AllOf) and child.elements and
-               _safe_ann(child.elements[0]) != _safe_ann(child) for child in children)
+    _ = depth
+    return any(_f23_shape(sut, child) for child in children)
 
 
 def _safe_ann(element):
@@ -291,6 +294,19 @@ def prop_schema(rng, depth=2):
             {"type": "object", "title": rng.choice(gs.TITLES), "properties": {"v": gs.leaf(rng)}},
             {"type": "number"}, [{"type": "string"}, {"type": "integer"}],
             {"anyOf": [{"type": "string"}, {"type": "null"}]}])}
+    if roll < 0.74:
+        # numeric members of both kinds in one composition (which branch builds the value matters)
+        members = [{"type": "number"}, {"type": "integer"}]
+        if rng.random() < 0.5:
+            members.reverse()
+        if rng.random() < 0.3:
+            members.append({"minimum": 0})
+        shape = rng.random()
+        if shape < 0.4:
+            return {rng.choice(["allOf", "allOf", "anyOf", "oneOf"]): members}
+        if shape < 0.7:
+            return {"type": members[0]["type"], "allOf": members[1:]}
+        return {"type": "array", "items": {"allOf": members}}
     if roll < 0.85:
         key = rng.choice(["anyOf", "oneOf", "allOf"])
         branches = [gs.leaf(rng), {"type": "object", "title": rng.choice(gs.TITLES), "properties": {"w": gs.leaf(rng)}},
